@@ -3,13 +3,13 @@ import json, random
 from fractions import Fraction
 from .. import common, absyn, values
 
-PRELUDE = ("name c03\nversion 1.0\nfloat x = 0.75\nint n = 5\ncomplex z = 0.5-1j\n"
+PRELUDE = ("name c03\nversion 1.0\nfloat x = 0.75\nint n = 5\nfloat p0 = 2.5\ncomplex z = 0.5-1j\n"
            "int array A =\n    7, 4\n    1, 6\nfloat array B =\n    0.25, 2.5, -3.0\n")
-ENV = {"x": 0.75, "n": 5, "z": complex(0.5, -1), "A": [7, 4, 1, 6], "B": [0.25, 2.5, -3.0]}
+ENV = {"x": 0.75, "n": 5, "p0": 2.5, "z": complex(0.5, -1), "A": [7, 4, 1, 6], "B": [0.25, 2.5, -3.0]}
 PRELUDE2 = PRELUDE + "T({x}, k=[{n}, {z}]) | 1\nG(A[1], B[2]) | 0\nint array A =\n    9, 8, 3, 6\nfloat array B =\n    0.5\n    1.25\n    4.0\n"
-ENV2 = {"x": 0.75, "n": 5, "z": complex(0.5, -1), "A": [9, 8, 3, 6], "B": [0.5, 1.25, 4.0]}
+ENV2 = {"x": 0.75, "n": 5, "p0": 2.5, "z": complex(0.5, -1), "A": [9, 8, 3, 6], "B": [0.5, 1.25, 4.0]}
 PRELUDE3 = PRELUDE + "G(A[1], B[2]) | 0\nint A = A*A-A\nfloat B = B*B\n"
-ENV3 = {"x": 0.75, "n": 5, "z": complex(0.5, -1), "A": [42, 12, 0, 30], "B": [0.0625, 6.25, 9.0]}
+ENV3 = {"x": 0.75, "n": 5, "p0": 2.5, "z": complex(0.5, -1), "A": [42, 12, 0, 30], "B": [0.0625, 6.25, 9.0]}
 FNS_QUICK = ["sin", "sqrt", "exp"]
 FNS_ALL = ["sin", "cos", "tan", "arcsin", "arccos", "arctan", "sinh", "cosh", "tanh", "arcsinh", "arccosh", "arctanh", "sqrt", "log", "exp"]
 
